@@ -36,6 +36,15 @@ def run(ck, tier, seed):
             n += 1
             if n in (7, 500, 1200):
                 ck.sample({"module": "Cmap", "segs": c["segs"], "groups": c["groups"], "records": [bmp, smp], "losing_records": list(decoys)})
+    # one configuration outside the small model: a format 12 subtable of more than 64 KiB (6000 groups), so that every
+    # 16-bit quantity a reader might keep about it overflows
+    big = {"segs": [{"s": 0x41, "e": 0x5A, "delta": (3 - 0x41) & 0xFFFF, "off": 0}, {"s": 0xFFFF, "e": 0xFFFF, "delta": 1, "off": 0}], "gia": [], "has12": True,
+           "groups": [{"s": 0x10000 + 3 * i, "e": 0x10000 + 3 * i + (i % 2), "g": 1 + (i % 700)} for i in range(6000)], "id": "big12"}
+    big["cmap_hex"] = cm.from_case(big).hex()
+    big["ref"] = sfnt.read_cmap(bytes.fromhex(big["cmap_hex"]))["ref"]
+    with open(cases, "a") as fo:
+        fo.write(json.dumps(big) + "\n")
+    n += 1
     host = os.path.join(vlib.REPO, "tests/fonts/Padauk.ttf")
     # a host font whose single rule changes nothing: the glyphs of a shaped text are those the cmap gave its characters
     from fontgen import gfont, gdl
